@@ -213,7 +213,7 @@ def check(ctx):
                             if ok and h.name and not (isinstance(a_exc, ast.Name) and a_exc.id == h.name):
                                 ok, why = False, "the error does not carry the caught exception"
                         ctx.ob("handler.names-config-and-field", f, r, ok, why, node=r)
-    ctx.need(nconv >= 4, "fewer than 4 converting handlers found (%d)" % nconv)
+    ctx.need(nconv >= 1, "no converting handler found on the routes: vanished anchors")
 
     # ---------------------------------------------------------------- C15.3 links
     check_links(ctx, "link", need_container=True)
